@@ -157,11 +157,30 @@ def residual_rule(prog: Program, rep, RID: str):
         for n in ast.walk(outer):
             if isinstance(n, ast.Assign) and len(n.targets) == 1 and isinstance(n.targets[0], ast.Name):
                 defs[n.targets[0].id] = n.value
+        # fill sites: (list written, element, multiplicity expression, body is exactly the one append)
+        sites = []
         for inner in [n for n in ast.walk(outer) if isinstance(n, ast.For) and n is not outer]:
             it = inner.iter
             if not (isinstance(it, ast.Call) and dotted(it.func) == "range" and len(it.args) == 1):
                 continue
-            m = substitute_locals(it.args[0], defs)
+            apps = [c for c in calls_in(inner) if isinstance(c.func, ast.Attribute) and c.func.attr == "append"]
+            one = len(inner.body) == 1 and len(apps) == 1 and len(apps[0].args) == 1
+            sites.append((norm(apps[0].func.value) if one else "?", norm(apps[0].args[0]) if one else norm(inner.body[0])[:60], it.args[0], one))
+        for c in calls_in(outer):
+            # residual_graph[u].extend(v for _ in range(m)) / .extend([v] * m)
+            if not (isinstance(c.func, ast.Attribute) and c.func.attr == "extend" and len(c.args) == 1 and not c.keywords):
+                continue
+            a = c.args[0]
+            if isinstance(a, (ast.GeneratorExp, ast.ListComp)) and len(a.generators) == 1 and not a.generators[0].ifs and \
+                    isinstance(a.generators[0].iter, ast.Call) and dotted(a.generators[0].iter.func) == "range" and len(a.generators[0].iter.args) == 1 and \
+                    not ({x.id for x in ast.walk(a.generators[0].target) if isinstance(x, ast.Name)} & {x.id for x in ast.walk(a.elt) if isinstance(x, ast.Name)}):
+                sites.append((norm(c.func.value), norm(a.elt), a.generators[0].iter.args[0], True))
+            elif isinstance(a, ast.BinOp) and isinstance(a.op, ast.Mult) and isinstance(a.left, ast.List) and len(a.left.elts) == 1:
+                sites.append((norm(c.func.value), norm(a.left.elts[0]), a.right, True))
+            elif norm(c.func.value).startswith("residual_graph["):
+                raise AnalysisError(f"{f.qualname}: the residual graph is extended with `{norm(a)[:60]}`: form not recognised")
+        for tgt_list, elt, m_expr, body_ok in sites:
+            m = substitute_locals(m_expr, defs)
             mt = norm(m)
             # the variables are indexed by the node objects: (u, v, layer).  A key of converted nodes - (str(u), str(v), layer) - names another object for
             # every node whose str() differs from it (a str subclass such as `class Node(str, Enum)` passes the isinstance(node, str) validation):
@@ -171,13 +190,12 @@ def residual_rule(prog: Program, rep, RID: str):
             mt = mt.replace("[(", "[").replace(")]", "]")
             if mt in (f"round(self.edge_vars_sol[{str_key}])", f"int(round(self.edge_vars_sol[{str_key}]))"):
                 converted_key = True
-            apps = [c for c in calls_in(inner) if isinstance(c.func, ast.Attribute) and c.func.attr == "append"]
-            body_ok = len(inner.body) == 1 and len(apps) == 1 and norm(apps[0].func.value) == f"residual_graph[{u}]" and norm(apps[0].args[0]) == v
+            body_ok = body_ok and tgt_list == f"residual_graph[{u}]" and elt == v
             if mt in (f"round(self.edge_vars_sol[{want_key}])", f"int(round(self.edge_vars_sol[{want_key}]))") and body_ok:
                 ok = True
                 why = f"residual_graph[{u}] receives round(edge_vars_sol[{want_key}]) copies of {v}"
             else:
-                why = f"multiplicity `{mt}` / body `{norm(inner.body[0])[:60]}`"
+                why = f"multiplicity `{mt}` / `{tgt_list}` receives `{elt}`"
     key = "AbstractWalkModelDiGraph._build_residual_graph_for_layer:multiplicity"
     if converted_key:
         rep.violation(RID, key, "the solver values are looked up under (str(u), str(v), layer) although the variables are indexed by the node objects (u, v, layer): for nodes "
